@@ -62,6 +62,8 @@ def FieldKind.validatedValue (k : FieldKind) (v : Str) : Out (Option Value) :=
       match pyDecimal t with
       | .unsupported => .error .unsupported
       | .invalid => .ok none
+      | .ok (.inf _) => .ok none        -- not finite: refused
+      | .ok .nan => .ok none
       | .ok d =>
         match valid.validate d with
         | none => .error .invalidOperation          -- NaN compared with a limit
